@@ -66,10 +66,12 @@ Proof.
   apply drop_while_incl in H. exact H.
 Qed.
 
-Lemma base_params_incl o x : In x (base_params o) -> x = 32 \/ In x (o_extra o).
+Lemma params_of_clean x href : extra_clean x -> ~ In 62 href -> ~ In 62 (params_of x href).
 Proof.
-  unfold base_params. destruct (o_extra o) as [|c e] eqn:E; [intros []|].
-  intros [H|H]; [left; symmetry; exact H|right]. apply strip_incl in H. exact H.
+  intros X H. destruct x as [[|c e]|f]; cbn [params_of extra_clean] in *.
+  - intros [].
+  - intros [E|Hin]; [discriminate|]. apply strip_incl in Hin. exact (X Hin).
+  - intros [E|Hin]; [discriminate|]. apply strip_incl in Hin. exact (X href H Hin).
 Qed.
 
 Lemma firstn_In {A} n : forall (l : list A) x, In x (firstn n l) -> In x l.
@@ -86,7 +88,7 @@ Proof.
 Qed.
 
 Lemma make_link_clean o m :
-  ~ In 60 (m_g1 m) -> ~ In 62 (m_g1 m) -> ~ In 62 (o_extra o) -> piece_clean (make_link o m).
+  ~ In 60 (m_g1 m) -> ~ In 62 (m_g1 m) -> extra_clean (o_extra o) -> piece_clean (make_link o m).
 Proof.
   intros G60 G62 X62. pose proof (make_link_spec o m) as S. unfold make_link in *.
   destruct (o_require o && negb (has_proto m)); [exact G60|].
@@ -97,7 +99,7 @@ Proof.
   { destruct (has_proto m); [exact G62|]. apply not_in_app; [|exact G62]. cbn. intuition discriminate. }
   split; [exact H62|]. split.
   - apply not_in_app.
-    + intros H. apply base_params_incl in H as [H|H]; [discriminate|exact (X62 H)].
+    + apply params_of_clean; assumption.
     + destruct short; [|intros []]. unfold title_attr. cbn [app In].
       intros [E|[E|[E|[E|[E|[E|[E|[E|Hin]]]]]]]]; try discriminate.
       apply in_app_or in Hin as [Hin|[E|[]]]; [exact (H62 Hin)|discriminate].
@@ -105,7 +107,7 @@ Proof.
 Qed.
 
 Lemma pieces_clean o segs :
-  ~ In 60 (src segs) -> ~ In 62 (src segs) -> ~ In 62 (o_extra o) -> Forall piece_clean (pieces o segs).
+  ~ In 60 (src segs) -> ~ In 62 (src segs) -> extra_clean (o_extra o) -> Forall piece_clean (pieces o segs).
 Proof.
   intros H60 H62 X. unfold pieces. induction segs as [|s segs IH]; [constructor|].
   cbn [src flat_map] in H60, H62. cbn [map]. constructor.
